@@ -32,11 +32,11 @@ def wrap(layers, inner_ops):
     for spec in reversed(layers):
         k = spec[0]
         if k == 'group_by':
-            ops = [rs.ops.group_by(A.f_mod(spec[1]), ops)]
+            ops = [A.twice(lambda ops=ops: rs.ops.group_by(A.f_gkey(spec[1]), ops))]
         elif k == 'roll':
-            ops = [rs.data.roll(spec[1], spec[2], ops)]
+            ops = [A.twice(lambda ops=ops: rs.data.roll(spec[1], spec[2], ops))]
         elif k == 'split':
-            ops = [rs.data.split(A.splitf(spec[1], spec[2]), ops)]
+            ops = [A.twice(lambda ops=ops: rs.data.split(A.splitf(spec[1], spec[2]), ops))]
         elif k == 'time_split':
             ops = [rs.data.time_split(time_mapper=A.to_dt, active_timeout=A.to_td(spec[1]), inactive_timeout=A.to_td(spec[2]),
                                       closing_mapper=A.closingf(spec[3]), include_closing_item=spec[4], pipeline=ops)]
@@ -174,7 +174,8 @@ def interleave_case(draw):
 
 def run_grouped(p, items):
     head, tail = [], []
-    ops = [rs.ops.group_by(lambda i: i[0], [drive.tap(head), rs.ops.map(lambda i: i[1])] + A.build_pipeline(p, A.Env()) + [drive.tap(tail)])]
+    # group key values with equal hashes (-1 / -2, two tuples): groups are told apart by ==
+    ops = [rs.ops.group_by(lambda i: A.GKEYS[i[0] % len(A.GKEYS)], [drive.tap(head), rs.ops.map(lambda i: i[1])] + A.build_pipeline(p, A.Env()) + [drive.tap(tail)])]
     r = drive.store([tuple(i) for i in items], ops)
     keymap = {}
     for kind, key, item, _t in head:
@@ -294,6 +295,49 @@ def check_raw(case):
     return {'nontrivial': A.pipeline_stateful(p) and (reuse or len(by_idx) >= 2), 'labels': labels}
 
 
+MANY_P = [
+    [['tee', 'zip', [[], [['filter_mod', 2, 0]]]]],
+    [['tee', 'combine_latest', [[['scan_sum', False]], [['filter_gt', 0]], []]]],
+    [['scan_sum', False], ['lag', 1]],
+    [['distinct', 0], ['pad_end', 1, None]],
+    [['roll', 2, 1, [['scan_sum', True]]]],
+]
+
+
+def many_enum(tier):
+    for nk in ((300, 5000) if tier == 'quick' else (300, 4097, 5000, 9000)):
+        for p in MANY_P:
+            yield {'nk': nk, 'p': p}
+
+
+def check_many(case):
+    """Thousands of keys alive at the same time (a group_by over many users): per-key slots must not alias each other
+    (key k vs key k + 4096, ...).  Every key's output is compared with the reference model of its own items."""
+    nk, p = case['nk'], case['p']
+    # three rounds over all keys: every key has 3 items, all keys stay live until the end
+    items = [(k, (k * 7 + r * 3) % 11 - 4) for r in range(3) for k in range(nk)]
+    tail = []
+    ops = [rs.ops.group_by(lambda i: i[0], [rs.ops.map(lambda i: i[1])] + A.build_pipeline(p, A.Env()) + [drive.tap(tail)])]
+    r = drive.store(items, ops)
+    H.require_clean(r, 'group_by over %d live keys' % nk, pipeline=p)
+    per = {}
+    order = []
+    for kind, key, item, _t in tail:
+        if kind == 'c':
+            order.append(key)
+        elif kind == 'n':
+            per.setdefault(key, []).append(item)
+    if len(order) != nk:
+        raise Violation('%d groups created for %d keys' % (len(order), nk), pipeline=p)
+    for k, key in enumerate(order):           # groups are created in order of first appearance = key order
+        vals = [v for kk, v in items if kk == k] if nk <= 300 else [(k * 7 + r_ * 3) % 11 - 4 for r_ in range(3)]
+        exp = [v for _, v in H.model_events(p, vals, 'mux')[0]]
+        if not cmp.same_seq(per.get(key, []), exp, approx=True):
+            raise Violation('key %d of %d live keys: output differs from the model of its own items' % (k, nk), key=k, values=vals,
+                            expected=exp, got=per.get(key, []), pipeline=p)
+    return {'nontrivial': True, 'labels': ['keys=%d' % nk] + H.labels_of(p)}
+
+
 def coverage_targets(classes, total):
     out = []
     n = sum(v for k, v in classes.items() if k.startswith('nested:parent:'))
@@ -312,6 +356,7 @@ def subs(tier):
             doc='every key lifetime under group_by/roll/split/time_split (1-2 levels) vs the same items run alone'),
         Sub('interleave', check_interleave, gen=interleave_case, examples={'quick': 1200, 'thorough': 120000},
             doc='two interleavings of the same per-key sequences give identical per-key outputs'),
+        Sub('many_keys', check_many, enum=many_enum, doc='300 .. 9000 keys alive at once under group_by: no aliasing between per-key slots'),
         Sub('raw', check_raw, gen=raw_case, examples={'quick': 1500, 'thorough': 150000},
             doc='raw histories of lifetimes on sparse/descending/re-used slot indices vs each lifetime alone'),
     ]
